@@ -1,11 +1,11 @@
 SPECIFICATION FairSpec
 CONSTANTS
-  Addr <- Addr2
-  Gaps <- GapsFixed2
+  Addr <- Addr1
+  Gaps <- GapsJitter1
   T = 10
   D = 1
-  MaxEvents = 3
-  MaxFails = 1
+  MaxEvents = 2
+  MaxFails = 3
   Backoff = FALSE
   Closed = TRUE
   ObserveCb = TRUE
